@@ -439,10 +439,12 @@ Definition column_from_one (selq : stats_set xq -> xq) (seln : stats_set N -> N)
     the two middle durations, figures averaged. *)
 Definition median_from_two (inp : inputs) (st : stats) : bool :=
   let ix := indexed (in_durs inp) in
+  let lo := mid_lo (in_durs inp) in
+  let hi := mid_hi (in_durs inp) in
   existsb (fun s1 =>
-    (snd s1 =? mid_lo (in_durs inp)) &&
+    (snd s1 =? lo) &&
     existsb (fun s2 =>
-      negb (fst s1 =? fst s2) && (snd s2 =? mid_hi (in_durs inp)) &&
+      negb (fst s1 =? fst s2) && (snd s2 =? hi) &&
       forallb2 (fun x v => xq_close x (Fin v (2 * in_size inp)))
                (column_of median st)
                (map (fun p => fst p + snd p)
